@@ -157,10 +157,8 @@ Definition all_tok (kids : list (node * tden)) : bool :=
   forallb (fun kd => match snd kd with TDTok => true | _ => false end) kids.
 Definition nodup_pairs (l : list tkv) : option (list tkv) := if keys_nodup (map fst l) then Some l else None.
 
-Fixpoint denote_tnode (content : bytes) (n : node) {struct n} : tden :=
-  let 'Node kind _ sb eb _ _ missing ch := n in
-  let kids := (fix go (l : list node) : list (node * tden) :=
-                 match l with [] => [] | c :: t => (c, denote_tnode content c) :: go t end) ch in
+(* one level of the denotation: the node's own data and the denotations of its children *)
+Definition denote_tstep (content kind : bytes) (sb eb : N) (missing : bool) (kids : list (node * tden)) : tden :=
   if missing then TDBad
   else if existsb (beq kind) toml_punct || beq kind tk_comment || beq kind tk_escape then TDTok
   else if beq kind tk_bare_key || beq kind tk_quoted_key then
@@ -209,23 +207,30 @@ Fixpoint denote_tnode (content : bytes) (n : node) {struct n} : tden :=
     end
   else if beq kind tk_document then match titems_of kids with Some d => TDDoc d | None => TDBad end
   else TDBad.
+Fixpoint denote_tnode (content : bytes) (n : node) {struct n} : tden :=
+  let 'Node kind _ sb eb _ _ missing ch := n in
+  denote_tstep content kind sb eb missing
+    ((fix go (l : list node) : list (node * tden) :=
+        match l with [] => [] | c :: t => (c, denote_tnode content c) :: go t end) ch).
 Definition denote_toml (content : bytes) (root : node) : option (list titem) :=
   match denote_tnode content root with TDDoc d => Some d | _ => None end.
 
 (* the spellings the parsers are known to misread (KNOWN_FINDINGS: toml-quoted-key, toml-literal-string; keys written
    with blanks around the dot): every key is bare / dotted-bare without blanks, every string is a basic string
    without backslashes *)
+Definition plain_here (content kind : bytes) (sb eb : N) : bool :=
+  if beq kind tk_quoted_key then false
+  else if beq kind tk_bare_key || beq kind tk_dotted_key then
+    match slice content sb eb with Some t => plain_key_text t | None => false end
+  else if beq kind tk_string then
+    match slice content sb eb with
+    | Some t => match quoted_inner 34 t with Some inner => no_byte 34 inner && no_byte 92 inner && no_byte 10 inner | None => false end
+    | None => false
+    end
+  else true.
 Fixpoint plain_toml (content : bytes) (n : node) : bool :=
   let 'Node kind _ sb eb _ _ _ ch := n in
-  (if beq kind tk_quoted_key then false
-   else if beq kind tk_bare_key || beq kind tk_dotted_key then
-     match slice content sb eb with Some t => plain_key_text t | None => false end
-   else if beq kind tk_string then
-     match slice content sb eb with
-     | Some t => match quoted_inner 34 t with Some inner => no_byte 34 inner && no_byte 92 inner && no_byte 10 inner | None => false end
-     | None => false
-     end
-   else true)
+  plain_here content kind sb eb
   && (fix go (l : list node) : bool := match l with [] => true | c :: t => plain_toml content c && go t end) ch.
 
 (* ---------- Cargo.toml ---------- *)
@@ -309,3 +314,8 @@ Definition cargo_known (d : list titem) : bool :=
                     | IPair k _ => match k with a :: _ :: _ => existsb (beq a) (w_workspace :: w_target :: dep_words) | _ => false end
                     | IArrTable _ _ => false
                     end) d.
+
+(* well-formed as a Cargo manifest, as far as this reading goes: a member of a dependency (x.y = ..) is not a table *)
+Definition entry_shape_ok (e : tkv) : bool := match e with (_ :: _ :: _, TInline _) => false | _ => true end.
+Definition cargo_shape_ok (d : list titem) : bool :=
+  forallb (fun i => match i with ITable h l => negb (is_dep_table h) || forallb entry_shape_ok l | _ => true end) d.
